@@ -297,6 +297,7 @@ ITEMS = location_types() + budget_types() + error_types() + [
          ensures=[
              ('C10:stored_io_error_is_reported_at_the_end', '''old(self).error.content() is Some ==>
                     r is Err && r->Err_0 is IOError && final(self).budget == old(self).budget'''),
+             ('C10:after_a_successful_finish_no_reader_error_is_pending', 'r is Ok ==> final(self).error.content() is None'),
              ('C07:delayed_breach_is_surfaced', '''old(self).error.content() is None ==> match old(self).budget {
                     None => r is Ok,
                     Some(b) => final(self).budget is None
@@ -473,21 +474,23 @@ ITEMS = location_types() + budget_types() + error_types() + [
     dict(src='src/lib.rs', path='fn from_str_with_options_impl', id='from_str_with_options_impl#leftover_check',
          fragment=r'match src\.peek\(\) \{.*?src\.finish\(\)\s*\.map_err\(\|e\| maybe_with_snippet\(e, input, with_snippet, crop_radius\)\)\?;',
          fragment_flags='S',
-         wrapper="fn from_str_leftover_check_fragment<'a>(src: &mut LiveEvents<'a>, input: &str, with_snippet: bool, crop_radius: usize) -> Result<(), Error> { {FRAG} Ok(()) }",
+         wrapper="fn from_str_leftover_check_fragment<'a>(src: &mut LiveEvents<'a>, input: &str, with_snippet: bool, crop_radius: usize, value: DocVal) -> Result<DocVal, Error> { {FRAG} Ok(value) }",
          props=['C05', 'C11', 'C09', 'C10', 'C01'],
          rewrites=[(r'Error::multiple_documents\("use from_multiple or from_multiple_with_options"\)', 'error_multiple_documents("use from_multiple or from_multiple_with_options")', None, 'R8'),
                    (r'scalar_is_nullish\(value, style\)', 'scalar_is_nullish(value.as_ref(), style)', None, 'R15'),
                    (r'src\.finish\(\)\s*\.map_err\(\|e\| maybe_with_snippet\(e, input, with_snippet, crop_radius\)\)\?;',
                     'match src.finish() { Ok(__v) => __v, Err(e) => { return Err(maybe_with_snippet(e, input, with_snippet, crop_radius)); } };', None, 'R18')],
-         ensures=[('C05:nothing_may_be_left_after_the_root_value', 'r is Ok ==> old(src).rest().len() == 0 || final(src).seen_doc_end')],
+         ensures=[('C05:nothing_may_be_left_after_the_root_value', 'r is Ok ==> old(src).rest().len() == 0 || final(src).seen_doc_end'),
+                  ('C10:a_value_is_returned_only_after_finish_found_no_stored_reader_error', 'r is Ok ==> final(src).error.content() is None')],
          canaries=['C05:nothing_may_be_left_after_the_root_value']),
     dict(src='src/lib.rs', path='fn from_reader_with_options', id='from_reader_with_options#leftover_check',
          fragment=r'match src\.peek\(\) \{.*?if let Err\(e\) = src\.finish\(\) \{\s*return Err\(attach_snippet\(e\)\);\s*\}',
          fragment_flags='S',
-         wrapper="fn from_reader_leftover_check_fragment<'a>(src: &mut LiveEvents<'a>) -> Result<(), Error> { {FRAG} Ok(()) }",
+         wrapper="fn from_reader_leftover_check_fragment<'a>(src: &mut LiveEvents<'a>, value: DocVal) -> Result<DocVal, Error> { {FRAG} Ok(value) }",
          props=['C05', 'C11', 'C09', 'C10', 'C01'],
          rewrites=[(r'Error::multiple_documents\("use read or read_with_options to obtain the iterator"\)', 'error_multiple_documents("use read or read_with_options to obtain the iterator")', None, 'R8')],
-         ensures=[('C05:nothing_may_be_left_after_the_root_value', 'r is Ok ==> old(src).rest().len() == 0 || final(src).seen_doc_end')],
+         ensures=[('C05:nothing_may_be_left_after_the_root_value', 'r is Ok ==> old(src).rest().len() == 0 || final(src).seen_doc_end'),
+                  ('C10:a_value_is_returned_only_after_finish_found_no_stored_reader_error', 'r is Ok ==> final(src).error.content() is None')],
          canaries=['C05:nothing_may_be_left_after_the_root_value']),
     # ---- document iterator over a reader (C11 / C10): ReadIter::next of read_with_options ----
     dict(src='src/options.rs', path='enum DuplicateKeyPolicy', derive=COPY),
@@ -533,4 +536,74 @@ ITEMS = location_types() + budget_types() + error_types() + [
                  dict(before_re=r'match src\.finish\(\)', label='C11:the_batch_ends_only_when_the_stream_has_no_more_events', text='assert(src.rest().len() == 0);')],
          ensures=[('values_are_returned_only_after_finish', 'r is Ok ==> true')],
          loops={1: dict(header=r'^loop$', invariant_except_break=[('running', 'true')], ensures=[('C11:the_loop_is_left_only_when_the_stream_has_no_more_events', 'src.rest().len() == 0')])}),
+]
+
+# ---- C09: every entry point builds its event source the same way (construction sites lifted as fragments) ----
+# LiveEvents::from_str / from_reader are taken as assumed constructors (their struct literal copies the arguments);
+# the obligation at every site is that the arguments are the caller's options, unmodified, and that the source is NOT put
+# into the stop-at-document-end mode, in which a following document is reported differently (and, behind the leftover
+# check, not at all).
+_CTOR_ENS = ('r.stop_at_doc_end == stop_at_doc_end && r.alias_limits == alias_limits && !r.seen_doc_end'
+             ' && r.look is None && r.inject@.len() == 0 && r.rec_stack@.len() == 0 && r.total_replayed_events == 0'
+             ' && r.budget_report == budget_report && r.budget_report_cb == budget_report_cb'
+             ' && (r.budget is Some <==> budget is Some) && (budget is Some ==> r.budget->Some_0.budget == budget->Some_0 && r.budget->Some_0.policy == %s)')
+ITEMS += [
+    dict(src=L, path='impl LiveEvents/fn from_reader', trusted=True, props=[],
+         rewrites=[(r"<R: std::io::Read \+ 'a>", '', 1, 'R9'), (r'inputs: R,', 'inputs: ByteReader,', 1, 'R9')],
+         ensures=[('assumed_constructor_copies_its_arguments', _CTOR_ENS % 'policy')]),
+    dict(src=L, path='impl LiveEvents/fn from_str', trusted=True, props=[],
+         ensures=[('assumed_constructor_copies_its_arguments', _CTOR_ENS % 'EnforcingPolicy::AllContent')]),
+]
+def _ctor_site(src, fn, kind, policy):
+    if kind == 'str':
+        frag = r'let (mut )?src = LiveEvents::from_str\([^;]*?\);'
+        wrap = "fn build_source_%s<'a>(input: &'a str, options: EntryOptions) -> LiveEvents<'a> { {FRAG} src }" % fn
+    else:
+        frag = r'let (mut )?src = LiveEvents::from_reader\([^;]*?\);'
+        wrap = "fn build_source_%s<'a>(reader: ByteReader, ring_handle: ByteReader, options: EntryOptions) -> LiveEvents<'a> { {FRAG} src }" % fn
+    ens = [('C09:every_entry_point_reads_on_past_the_document_end_so_that_a_following_document_is_reported_the_same_way', '!r.stop_at_doc_end'),
+           ('C09:the_alias_limits_of_the_options_reach_the_event_source_unchanged', 'r.alias_limits == options.alias_limits'),
+           ('C09:the_budget_of_the_options_reaches_the_event_source_unchanged',
+            '(r.budget is Some <==> options.budget is Some) && (options.budget is Some ==> r.budget->Some_0.budget == options.budget->Some_0)')]
+    if policy:
+        ens.append(('C09:the_budget_is_enforced_%s' % ('over_the_whole_input' if policy == 'AllContent' else 'per_document_by_the_document_iterator'),
+                    'r.budget is Some ==> r.budget->Some_0.policy == EnforcingPolicy::%s' % policy))
+    return dict(src=src, path='fn ' + fn, id=fn + '#event_source', fragment=frag, fragment_flags='S', wrapper=wrap,
+                props=['C09'], optional=True, ensures=ens)
+ITEMS += [
+    _ctor_site('src/lib.rs', 'from_str_with_options_impl', 'str', 'AllContent'),
+    _ctor_site('src/lib.rs', 'from_str_with_options_and_path_recorder', 'str', 'AllContent'),
+    _ctor_site('src/lib.rs', 'from_multiple_with_options', 'str', 'AllContent'),
+    _ctor_site('src/lib.rs', 'from_multiple_with_options_valid', 'str', 'AllContent'),
+    _ctor_site('src/lib.rs', 'from_multiple_with_options_validate', 'str', 'AllContent'),
+    _ctor_site('src/lib.rs', 'from_reader_with_options', 'reader', 'AllContent'),
+    _ctor_site('src/lib.rs', 'from_reader_with_options_valid', 'reader', 'AllContent'),
+    _ctor_site('src/lib.rs', 'from_reader_with_options_validate', 'reader', 'AllContent'),
+    _ctor_site('src/lib.rs', 'read_with_options', 'reader', 'PerDocument'),
+    _ctor_site('src/lib.rs', 'read_with_options_valid', 'reader', 'PerDocument'),
+    _ctor_site('src/lib.rs', 'read_with_options_validate', 'reader', 'PerDocument'),
+    _ctor_site('src/de/with_deserializer.rs', 'with_deserializer_from_str_with_options', 'str', 'AllContent'),
+    _ctor_site('src/de/with_deserializer.rs', 'with_deserializer_from_reader_with_options', 'reader', 'AllContent'),
+]
+# the struct literals of the two constructors, lifted as fragments whose free variables are the constructors' own parameters:
+# this discharges the assumed constructor contracts above up to the three lines in front of the literals (BOM stripping and
+# the character source, which are covered in unit `reader`)
+_LIT_RW = [(r'Self \{', 'LiveEvents {', 1, 'R9'),
+           (r'budget\.map\(\|budget\| BudgetEnforcer::new\(budget, ([A-Za-z:]+)\)\)',
+            r'(match budget { Some(budget) => Some(BudgetEnforcer::new(budget, \1)), None => None })', 1, 'R18')]
+ITEMS += [
+    dict(dict([x for x in _bm.ITEMS if x['path'].endswith('BudgetEnforcer/fn new')][0]), trusted=True, props=[], canaries=[]),
+    dict(src=L, path='impl LiveEvents/fn from_reader', id='LiveEvents::from_reader#literal', props=['C09', 'C07'],
+         fragment=r'(?<!-> )Self \{.*?\n\s*error,\s*\}', fragment_flags='S',
+         wrapper="fn live_events_from_reader_literal<'a>(parser: StreamParser<'a>, budget: Option<Budget>, budget_report: Option<ReportFn>, budget_report_cb: Option<ReportCb>, alias_limits: AliasLimits, stop_at_doc_end: bool, policy: EnforcingPolicy, error: ErrCell) -> LiveEvents<'a> { {FRAG} }",
+         rewrites=_LIT_RW + [(r'SaphyrParser::StreamParser\(parser\)', 'saphyr_stream_parser(parser)', 1, 'R8')],
+         ensures=[('C09:the_constructor_copies_its_arguments_and_starts_with_empty_replay_state', _CTOR_ENS % 'policy'),
+                  ('C10:the_error_cell_shared_with_the_character_source_is_the_one_kept', 'r.error == error')]),
+    dict(src=L, path='impl LiveEvents/fn from_str', id='LiveEvents::from_str#literal', props=['C09', 'C07'],
+         fragment=r'(?<!-> )Self \{.*?\n\s*error: [^\n]*\n\s*\}', fragment_flags='S',
+         wrapper="fn live_events_from_str_literal<'a>(input: &'a str, budget: Option<Budget>, budget_report: Option<ReportFn>, budget_report_cb: Option<ReportCb>, alias_limits: AliasLimits, stop_at_doc_end: bool) -> LiveEvents<'a> { {FRAG} }",
+         rewrites=_LIT_RW + [(r'SaphyrParser::StringParser\(Parser::new_from_str\(input\)\)', 'saphyr_string_parser(input)', 1, 'R8'),
+                             (r'Rc::new\(RefCell::new\(None\)\)', 'err_cell_new_empty()', 1, 'R8')],
+         ensures=[('C09:the_constructor_copies_its_arguments_and_starts_with_empty_replay_state', _CTOR_ENS % 'EnforcingPolicy::AllContent'),
+                  ('C10:a_string_source_has_no_reader_error', 'r.error.content() is None')]),
 ]
